@@ -151,7 +151,7 @@ func (d *D) nativeBase(j, idx int, ctx *core.Ctx) *core.Scenario {
 	}
 	if strings.HasPrefix(t, "gridn 0.000000001 ") {
 		// a spacing far below the line width: see known_findings.json; item 0 of this layer is that case, once
-		t = strings.Replace(t, "0.000000001", "0.001", 1)
+		t = strings.Replace(t, "0.000000001", "0.05", 1)
 	}
 	if j == 0 {
 		t = "gridn 0.000000001 \"red\""
@@ -194,17 +194,31 @@ func (d *D) runNative(sc *core.Scenario, ctx *core.Ctx) *core.Violation {
 	if err := os.WriteFile(path, []byte(sc.Program), 0o644); err != nil {
 		panic(err)
 	}
-	const bound = 20 * time.Second
-	cctx, cancel := context.WithTimeout(context.Background(), bound)
-	defer cancel()
-	// own, smaller memory fence: a program that collects without end fails fast instead of filling the machine
-	shArgs := append([]string{"-c", "ulimit -v 2500000; exec \"$0\" \"$@\"", bin, "run", "--rand-seed", "1"}, append(append([]string{}, sc.Argv...), path)...)
-	cmd := exec.CommandContext(cctx, "sh", shArgs...)
+	// bounded liveness in real time: 20 s is more than two orders of magnitude above what the
+	// slowest of these programs needs on an idle machine; if the bound is hit the program is run
+	// once more with three times the bound, so that a loaded machine cannot make the verdict
+	bound := 20 * time.Second
 	var so, se bytes.Buffer
-	cmd.Stdout, cmd.Stderr = &capped{w: &so, n: 1 << 20}, &capped{w: &se, n: 1 << 20}
-	core.HeartbeatNow()
-	err := cmd.Run()
-	core.HeartbeatNow()
+	var err error
+	var timedOut bool
+	for attempt := 0; attempt < 2; attempt++ {
+		so.Reset()
+		se.Reset()
+		cctx, cancel := context.WithTimeout(context.Background(), bound)
+		// own, smaller memory fence: a program that collects without end fails fast instead of filling the machine
+		shArgs := append([]string{"-c", "ulimit -v 2500000; exec \"$0\" \"$@\"", bin, "run", "--rand-seed", "1"}, append(append([]string{}, sc.Argv...), path)...)
+		cmd := exec.CommandContext(cctx, "sh", shArgs...)
+		cmd.Stdout, cmd.Stderr = &capped{w: &so, n: 1 << 20}, &capped{w: &se, n: 1 << 20}
+		core.HeartbeatNow()
+		err = cmd.Run()
+		core.HeartbeatNow()
+		timedOut = cctx.Err() != nil
+		cancel()
+		if !timedOut {
+			break
+		}
+		bound *= 3
+	}
 	code := 0
 	if ee, ok := err.(*exec.ExitError); ok {
 		code = ee.ExitCode()
@@ -216,9 +230,9 @@ func (d *D) runNative(sc *core.Scenario, ctx *core.Ctx) *core.Violation {
 		ctx.Distinct(prng.HashString("native" + sc.Program))
 	}
 	obs := map[string]any{"args": append([]string{"run"}, sc.Argv...), "status": code, "stderr": trunc(strings.ReplaceAll(se.String(), path, "PROGRAM"), 400), "stdout_bytes": so.Len()}
-	if cctx.Err() != nil {
+	if timedOut {
 		return &core.Violation{Oracle: "no-host-hang", Signature: "host-hang:native:" + sigOf(firstCall(sc.Program)),
-			Expected: fmt.Sprintf("execution ends (normal completion, Evy panic, exit, failed test); this program was still running after %v of wall-clock time", bound),
+			Expected: fmt.Sprintf("execution ends (normal completion, Evy panic, exit, failed test); this program was still running after %v of wall-clock time (second attempt)", bound/3),
 			Observed: obs, Match: map[string]string{"outcome": "host-hang", "edge_call": firstCall(sc.Program)}}
 	}
 	if strings.Contains(se.String(), "goroutine ") || strings.Contains(se.String(), "fatal error:") {
